@@ -735,8 +735,47 @@ func c08Families(tier string) []explore.Family {
 		r.Class("own-engine")
 	}})
 
-	// (E3) unknown filter; one argument too many, for every standard filter
 	stdf := StdFilters()
+	// (E5) every argument of a pipeline step is evaluated (exactly as doing the steps one at a time through assign): an
+	// argument whose own evaluation fails - an unknown filter, a division by zero inside a parenthesised pipeline -
+	// fails the whole object, in every argument position of every standard filter, whatever the receiver (also the
+	// receivers for which the filter can answer without looking at its arguments: "", [], nil)
+	badArgs := []string{"(x | no_such_filter)", "(1 | divided_by: 0)", "(x | upcase: 1, 2)"}
+	badRecv := []string{`""`, `"abc"`, "e", "nothing", "3", "l"}
+	fams = append(fams, explore.Family{Name: "failing-argument-fails-the-pipeline", Count: int64(len(stdf)), Run: func(i int64, r *explore.Rec) {
+		f := stdf[i]
+		n, known := c08Arity[f]
+		if c08FilterArity != nil {
+			if m, variadic, ok := c08FilterArity(c08.eng, f); ok && !variadic {
+				n, known = m, true
+			}
+		}
+		if !known || n == 0 {
+			r.Class("failing-argument/no-parameters")
+			return
+		}
+		for pos := 0; pos < n; pos++ {
+			for _, bad := range badArgs {
+				argv := make([]string, n)
+				for j := range argv {
+					argv[j] = "1"
+				}
+				argv[pos] = bad
+				for _, rc := range badRecv {
+					src := "{{ " + rc + " | " + f + ": " + strings.Join(argv, ", ") + " }}"
+					r.Eval()
+					r.Trace()
+					o := Render(c08.eng, src, map[string]any{"x": "v", "e": []any{}, "l": []any{1, 2}})
+					if o.Panic != nil || o.Err == nil {
+						r.Violation("failing-argument-ignored:"+f, map[string]any{"template": src, "argument_position": pos}, "an error (the argument cannot be evaluated)", o.String())
+					}
+				}
+			}
+		}
+		r.Class("failing-argument/" + strconv.Itoa(n))
+	}})
+
+	// (E3) unknown filter; one argument too many, for every standard filter
 	fams = append(fams, explore.Family{Name: "unknown-filter-and-arity", Count: int64(len(stdf) + 1), Run: func(i int64, r *explore.Rec) {
 		r.Eval()
 		r.Transition()
